@@ -1175,3 +1175,183 @@ fn loop_and_state_rejections() {
     en_rejected("panicking_in_nested", "inside a nested statement block");
     en_rejected("Entities::len", "call of `SlotMap::len`, which is neither translated earlier in this run nor given by --prim");
 }
+
+// ------------------------------------------------------------------------------------------------ handler-config shaped code
+
+const HC: &str = r#"
+pub struct HC {
+    received_event: Recv,
+    access: Maybe,
+    filter: CAcc,
+    filter_set: bool,
+    sent: BitSet<GIdx>,
+    accesses: Vec<CAcc>,
+}
+pub(crate) enum Recv { None, Ok(EventId), Invalid }
+pub(crate) enum Maybe { Ok(Access), Invalid }
+pub(crate) enum Named { A { x: u32 }, B }
+impl HC {
+    pub fn set_received_event<E: Into<EventId>>(&mut self, event: E) {
+        let event = event.into();
+        self.received_event = match self.received_event {
+            Recv::None => Recv::Ok(event),
+            Recv::Ok(old_event) => {
+                if old_event == event { Recv::Ok(event) } else { Recv::Invalid }
+            }
+            Recv::Invalid => Recv::Invalid,
+        };
+    }
+    pub fn set_access(&mut self, access: Access) {
+        self.access = match self.access {
+            Maybe::Ok(old_access) => access.join(old_access).map_or(Maybe::Invalid, Maybe::Ok),
+            Maybe::Invalid => Maybe::Invalid,
+        };
+    }
+    pub fn set_filter(&mut self, ca: CAcc) {
+        self.filter = match self.filter_set {
+            true => self.filter.and(&ca),
+            false => ca,
+        };
+        self.filter_set = true;
+    }
+    pub fn insert_sent(&mut self, event: GIdx) -> bool { self.sent.insert(event) }
+    pub fn insert_dropped(&mut self, event: GIdx) { self.sent.insert(event); }
+    fn let_match(&self) -> bool {
+        let b = match self.access { Maybe::Ok(a) => true, Maybe::Invalid => false };
+        b
+    }
+    fn map_or_closure(&self, o: Option<u32>) -> u32 { o.map_or(0, |x| x + 1) }
+    fn missing_variant(&mut self) { self.access = match self.access { Maybe::Ok(a) => Maybe::Ok(a) }; }
+    fn wrong_arity(&mut self) { self.access = match self.access { Maybe::Ok(a, b) => Maybe::Invalid, Maybe::Invalid => Maybe::Invalid }; }
+    fn nested_pattern(&mut self, r: Recv) -> bool { match r { Recv::Ok(EventId(x)) => true, Recv::None => false, Recv::Invalid => false } }
+    fn bool_one_arm(&self) -> u32 { match self.filter_set { true => 1 } }
+    fn bool_wild(&self) -> u32 { match self.filter_set { true => 1, _ => 0 } }
+    fn ctor_as_value(&self) -> bool { let f = Maybe::Ok; true }
+    fn map_or_fn(&self, o: Option<u32>) -> u32 { o.map_or(0, helper) }
+    fn into_of_local(&self, x: u32) -> u32 { x.into() }
+    fn generic_other<E: Clone>(&self, e: E) -> bool { true }
+    fn match_named_fields(&self, n: Named) -> bool { match n { Named::A { x } => true, Named::B => false } }
+}
+"#;
+
+fn hc_opts(fns: &[&str]) -> Options {
+    let p = |a: &str, b: &str| (a.to_string(), b.to_string());
+    Options {
+        impl_type: "HC".into(),
+        fns: fns.iter().map(|s| s.to_string()).collect(),
+        type_map: vec![p("Recv", "Option (Option Ev)"), p("Maybe", "Option Acc"), p("CAcc", "CA"), p("BitSet", "List Nat"), p("Access", "Acc"), p("EventId", "Ev"), p("GIdx", "Nat"), p("Named", "Named")],
+        variant_map: vec![p("Recv::None", "none"), p("Recv::Ok", "some (some $1)"), p("Recv::Invalid", "some none"), p("Maybe::Ok", "some $1"), p("Maybe::Invalid", "none")],
+        structs: vec!["HC".into()],
+        prims: vec![p("Access::join(self, Access) -> Option<Access>", "Acc.join"), p("CAcc::and(&self, &CAcc) -> CAcc", "CA.and"), p("BitSet::insert(&mut self, _) -> bool", "setInsert")],
+        source_label: "hc.rs".into(),
+        ..Default::default()
+    }
+}
+
+fn hc_ok(f: &str) -> String {
+    let out = translate(HC, &hc_opts(&[f])).unwrap_or_else(|e| panic!("{f}: {e}"));
+    body_of(&out, f)
+}
+
+fn hc_rejected(f: &str, needle: &str) {
+    match translate(HC, &hc_opts(&[f])) {
+        Ok(o) => panic!("{f} was translated:\n{o}"),
+        Err(e) => assert!(e.0.contains(needle), "{f}: message `{}` does not mention `{needle}`", e.0),
+    }
+}
+
+#[test]
+fn enum_with_fields_by_variant_templates_and_match_as_assigned_value() {
+    assert_eq!(
+        hc_ok("set_received_event"),
+        "def set_received_event (self : HC) (event : Ev) : HC :=
+  let event := event
+  let v1 :=
+    match self.received_event with
+    | none =>
+      some (some event)
+    | some (some old_event) =>
+      if old_event = event then
+        some (some event)
+      else
+        some none
+    | some none =>
+      some none
+  { self with received_event := v1 }"
+    );
+    let out = translate(HC, &hc_opts(&["set_received_event"])).unwrap();
+    assert!(out.contains("the type parameter `E: Into<EventId>` of fn set_received_event is `Ev` (`.into()` is the identity"), "{out}");
+    assert!(out.contains("`Recv::Ok` is `some (some $1)`"), "{out}");
+    assert!(out.contains("structure HC where\n  received_event : Option (Option Ev)\n  access : Option Acc\n  filter : CA\n  filter_set : Bool\n  sent : List Nat\n  accesses : List CA\n"), "{out}");
+}
+
+#[test]
+fn map_or_with_a_constructor_and_match_on_a_bool() {
+    assert_eq!(
+        hc_ok("set_access"),
+        "def set_access (self : HC) (access : Acc) : HC :=
+  let v1 :=
+    match self.access with
+    | some old_access =>
+      Option.elim (Acc.join access old_access) none (fun x1 => some x1)
+    | none =>
+      none
+  { self with access := v1 }"
+    );
+    assert_eq!(
+        hc_ok("set_filter"),
+        "def set_filter (self : HC) (ca : CA) : HC :=
+  let v1 :=
+    match self.filter_set with
+    | true =>
+      CA.and self.filter ca
+    | false =>
+      ca
+  let self := { self with filter := v1 }
+  { self with filter_set := true }"
+    );
+    assert_eq!(hc_ok("map_or_closure"), "def map_or_closure (self : HC) (o : Option Nat) : Nat :=\n  Option.elim o 0 (fun x => x + 1)");
+    assert_eq!(
+        hc_ok("let_match"),
+        "def let_match (self : HC) : Bool :=
+  let b :=
+    match self.access with
+    | some a =>
+      true
+    | none =>
+      false
+  b"
+    );
+}
+
+#[test]
+fn receiver_changing_prim_on_a_field() {
+    assert_eq!(
+        hc_ok("insert_sent"),
+        "def insert_sent (self : HC) (event : Nat) : HC × Bool :=
+  let (r1, q1) := setInsert self.sent event
+  let self := { self with sent := r1 }
+  (self, q1)"
+    );
+    assert_eq!(
+        hc_ok("insert_dropped"),
+        "def insert_dropped (self : HC) (event : Nat) : HC :=
+  let (r1, q1) := setInsert self.sent event
+  let self := { self with sent := r1 }
+  self"
+    );
+}
+
+#[test]
+fn handler_config_rejections() {
+    hc_rejected("missing_variant", "`match` without an arm for `Maybe::Invalid`");
+    hc_rejected("wrong_arity", "`Maybe::Ok` has 1 field(s)");
+    hc_rejected("nested_pattern", "the fields of a variant can only be bound to names");
+    hc_rejected("bool_one_arm", "without both `true` and `false` arms");
+    hc_rejected("bool_wild", "match pattern (only `true` and `false`)");
+    hc_rejected("ctor_as_value", "enum constructor as a function value");
+    hc_rejected("map_or_fn", "second argument of `map_or`");
+    hc_rejected("into_of_local", "outside the supported subset: method call used as a value");
+    hc_rejected("generic_other", "generic function");
+    hc_rejected("match_named_fields", "named fields");
+}
